@@ -96,6 +96,11 @@ class RefCloud:
         self._verify(path, fields, raw_pairs)
         if answer == "timeout":
             raise httpx.ReadTimeout("simulated timeout", request=request)
+        if answer == "proto":
+            # the server (or a middlebox) drops the connection half way / answers with something that is not HTTP
+            raise httpx.RemoteProtocolError("Server disconnected without sending a response.", request=request)
+        if answer == "decode":
+            raise httpx.DecodingError("Error -3 while decompressing data: incorrect header check", request=request)
         if answer == "500":
             return httpx.Response(500, text="server error", request=request)
         if answer == "404":
